@@ -17,7 +17,7 @@ func init() {
 	Registry["C07"] = Spec{
 		Fn:          c07,
 		Level:       "fault_enumeration",
-		Rule:        "encodings = library-encoded blocks of every catalogue column and of random compositions (as C01) and every protocol message at threshold-neighbour revisions (as C17); fault points = every cut position 0..len-1 for encodings <= 1 KiB (quick) / 4 KiB (thorough), otherwise all positions of the first and last 200/512 bytes plus 200/512 random cuts; blocks with the tested column first, last or alone, and blocks that end inside a 40 KiB..1 MiB string; plain stream, one compressed frame per method and the block split over 2..4 frames of mixed methods (None, LZ4, LZ4HC, ZSTD; cuts inside checksum, header, body); typed and inferred (Results.Auto) decoding. A violation is a proper prefix whose decode returns nil. Non-trivial = encoding of >= 2 bytes; distinct = (encoding, transport, decoder, cut)",
+		Rule:        "encodings = library-encoded blocks of every catalogue column and of random compositions (as C01) and every protocol message at threshold-neighbour revisions (as C17); fault points = every cut position 0..len-1 for encodings <= 1 KiB (quick) / 4 KiB (thorough), otherwise all positions of the first and last 200/512 bytes plus 200/512 random cuts; blocks with the tested column first, last or alone, zero-row blocks with columns, and blocks that end inside a 40 KiB..1 MiB string; plain stream, one compressed frame per method and the block split over 2..4 frames of mixed methods (None, LZ4, LZ4HC, ZSTD; cuts inside checksum, header, body); typed and inferred (Results.Auto) decoding. A violation is a proper prefix whose decode returns nil. Non-trivial = encoding of >= 2 bytes; distinct = (encoding, transport, decoder, cut)",
 		Assumptions: []string{"the complete encoding decodes and consumes exactly its length (checked here first; otherwise the case is skipped and left to C01/C17)"},
 		MinDistinct: 2000,
 	}
@@ -77,6 +77,9 @@ func c07(r *core.Run) {
 		rows := []int{1, 2, 3, 9}[rng.Intn(4)]
 		if rng.Intn(10) == 0 {
 			rows = 130
+		}
+		if k%8 == 5 {
+			rows = 0 // a header block: columns without rows (its last byte is a per-column flag or a type)
 		}
 		rev := val.BlockRevisions[rng.Intn(len(val.BlockRevisions))]
 		opt := val.GenOpt{MaxElem: 3, BigStr: rng.Intn(20) == 0}
